@@ -322,4 +322,21 @@ func runC13(r *Run) {
 	r.rule("R9", "function-valued Config fields the limiter calls are never nil (E1): set by configDefault on every path, also when no config is passed", func() {
 		configFuncFieldsRule(r, limPkg, "limiter")
 	})
+
+	r.rule("R10", "the sliding window keeps an entry into the next window: every manager.set of its handler uses a lifetime that includes the time left in the current window (E5)", func() {
+		h := limiterHandlers(r)["SlidingWindow"]
+		n := 0
+		for _, c := range callsMatching(h, false, nameHasSuffix("limiter.manager).set")) {
+			n++
+			ttl := c.Common.Args[len(c.Common.Args)-1]
+			// the time left in the window is exp − ts
+			left := dependsOn(ttl, func(v ssa.Value) bool {
+				bo, ok := v.(*ssa.BinOp)
+				return ok && bo.Op == token.SUB && dependsOn(bo.X, func(x ssa.Value) bool { return loadOfField(x, "limiter.item.exp") }) != nil
+			}) != nil
+			r.check(left, fmt.Sprintf("SlidingWindow:set#%d:lifetime-covers-next-window", n), r.pos(c.Instr), "the entry's lifetime is derived from the time left in the window (plus the expiration)",
+				"the sliding window stores an entry with a lifetime that does not include the time left in the current window: the entry vanishes when the window ends, the previous window's hits no longer count and up to Max requests are admitted right after the edge")
+		}
+		r.atLeast("manager.set calls in the sliding handler", n, 2)
+	})
 }
